@@ -1,6 +1,9 @@
 import Driver.Common
 import FianoModel.Crypto.Cbnt
 import FianoModel.Crypto.Psb
+import FianoModel.Crypto.SignedRangeModel
+import FianoModel.Manifest.Build
+import FianoModel.Gen.Manifest
 
 /-!
   Line-protocol driver of the C16 model.
@@ -178,6 +181,21 @@ def showRanges (rs : List (Nat × Nat)) : String :=
 def parsePubKind : String → Option Cbnt.PubKind
   | "rsa" => some .rsa | "ecdsa" => some .ecdsa | "sm2" => some .sm2 | _ => none
 
+/-- the manifest layouts, computed from the declarations regenerated from the Go sources (as Driver/C15 does) -/
+def manifestSrc : Fiano.Manifest.Sources :=
+  { decls := Fiano.Gen.Manifest.decls, countExprs := Fiano.Gen.Manifest.countExprs,
+    helpers := Fiano.Gen.Manifest.rehashHelpers }
+
+def manifestStrict (q : String) : Bool :=
+  match Fiano.Gen.Manifest.codecs.find? (·.name == q) with
+  | some c => match c.container with | some g => g.strictOrder | none => true
+  | none => true
+
+def showVerdict : Option (Except Cbnt.Err Unit) → String
+  | none => "noparse"
+  | some (.ok _) => "ok"
+  | some (.error _) => "err"
+
 def handleCbnt (req : List String) (t : Tables) : String :=
   let P := primsOf t
   let S := signersOf t
@@ -250,6 +268,15 @@ def handleCbnt (req : List String) (t : Tables) : String :=
       | .ok _ => "ok"
       | .error e => cbntErr e
     | _, _, _ => "bad-op"
+  | ["kmverify", b] =>
+    match parseHex b, Fiano.Manifest.sdefOf manifestSrc 8 "cbntkey.Manifest" with
+    | some b, some S => showVerdict (SignedRange.kmVerify P S b)
+    | _, _ => "bad-op"
+  | ["bpmverify", b] =>
+    match parseHex b, Fiano.Manifest.containerOf manifestSrc 8 "cbntbootpolicy.Manifest"
+        (manifestStrict "cbntbootpolicy.Manifest") with
+    | some b, some C => showVerdict (SignedRange.bpmVerify P C b)
+    | _, _ => "bad-op"
   | ["ibbranges", segs, size] =>
     match parseSegs segs, size.toNat? with
     | some segs, some size => showRanges (Cbnt.ibbRanges segs size)
@@ -348,14 +375,26 @@ def handlePsb (req : List String) (t : Tables) : String :=
     | _, _, _, _ => "bad-op"
   | ["getkeys", root, db, abl, oem] =>
     match parseHex root, parseHex db, parseHex abl, (if oem = "none" then some none else (parseHex oem).map some) with
-    | some root, some db, some abl, some oem => match Psb.getKeys P root db abl oem with
-      | .ok ks =>
+    | some root, some db, some abl, some oem =>
+      -- the key set as Go leaves it: returned together with the error
+      match Psb.getKeysAll P root db abl oem with
+      | (ks, none) =>
         let o := match Psb.psbSignBIOSKey ks with
           | .ok k => "oem=" ++ toHex k.keyID
           | .error _ => "oem=err"
         s!"ok {showKeySet ks} {o}"
-      | .error _ => "err"
+      | (ks, some _) => s!"err {showKeySet ks}"
     | _, _, _, _ => "bad-op"
+  | ["rtmfull", img, level, rootR, dbR, ablR, oemR, rtm, sig, d1, dL] =>
+    match parseHex img, level.toNat?, parseRange rootR, parseRange dbR, parseRange ablR,
+      (if oemR = "none" then some none else (parseRange oemR).map some),
+      parseRange rtm, parseRange sig, parseRange d1, parseRange dL with
+    | some img, some level, some rootR, some dbR, some ablR, some oemR, some rtm, some sig, some d1, some dL =>
+      match Psb.validateRTMFull P img level rootR dbR ablR oemR rtm sig d1 dL with
+      | none => "fail"
+      | some (.ok _, img') => s!"ok {fnvS img'}"
+      | some (.error _, img') => s!"invalid {fnvS img'}"
+    | _, _, _, _, _, _, _, _, _, _ => "bad-op"
   | ["rtm", img, level, rtm, sig, d1, dL, oemraw] =>
     match parseHex img, level.toNat?, parseRange rtm, parseRange sig, parseRange d1, parseRange dL, parseHex oemraw with
     | some img, some level, some rtm, some sig, some d1, some dL, some oemraw =>
@@ -368,7 +407,8 @@ def handlePsb (req : List String) (t : Tables) : String :=
     | _, _, _, _, _, _, _ => "bad-op"
   | _ => "bad-op"
 
-def psbOps : List String := ["rootkey", "dbkey", "signedblob", "tokenkey", "blobranges", "pspentry", "getkeys", "rtm"]
+def psbOps : List String :=
+  ["rootkey", "dbkey", "signedblob", "tokenkey", "blobranges", "pspentry", "getkeys", "rtm", "rtmfull"]
 
 def handle (ws : List String) : String :=
   let (req, tw) := splitT ws
